@@ -96,12 +96,37 @@ def cases(tier, rnd):
     return cs
 
 
+def run_sequences(out, rnd, n):
+    """operations in sequence on ONE api object per class: an earlier successful operation must not help a later one whose login
+    reply is empty"""
+    import asyncio
+    async def go():
+        cases = []; texts = []
+        for _ in range(n):
+            apis = {}; ident = {False: ("%06x" % rnd.randrange(1 << 24), "18"), True: ("%06x" % rnd.randrange(1 << 24), "00")}
+            for step in range(rnd.randrange(2, 6)):
+                kind = rnd.randrange(1, 13); t2 = kind in world.TYPE2_KINDS
+                if t2 not in apis: apis[t2] = world.ScriptedApi(t2, *ident[t2])
+                c = world.rand_op_case(rnd, kind, accepted_args=True); c["id"], c["key"] = ident[t2]
+                if step > 0 and rnd.random() < .6:
+                    r = [bytes.fromhex(x) for x in c["replies"]]; r[0] = b""; c["replies"] = [x.hex() for x in r]
+                texts.append(await apis[t2].run(kind, c["args"], [bytes.fromhex(r) for r in c["replies"]], c["now"])); cases.append(c)
+        return cases, texts
+    cases, it = asyncio.run(go())
+    io = [view(t) for t in it]
+    mo = [view(t) for t in lib.run_model([world.model_line(c) for c in cases])]
+    lib.differential(out, "sequences-on-one-object", cases, io, mo, ["ok"] * len(cases), oc.describe, nontrivial=lambda c: c["replies"][0] == "",
+                     sample=lambda c: oc.describe(c)[:300], classify=lambda c, i: "seq/" + world.KIND_NAMES[c["kind"]] + " / " + i,
+                     impl_spec=[judge(c, t) for c, t in zip(cases, it)])
+
+
 def run(tier, rnd, out):
     corpus = lib.load_corpus("C09")
     if corpus: run_stream(out, "corpus", corpus)
     run_stream(out, "faulty-replies", cases(tier, rnd))
     cs = oc.mixed_cases(rnd, 15 if tier == "quick" else 400, reply_mode="faulty", accepted_args=True)
     run_stream(out, "random-faults", cs)
+    run_sequences(out, rnd, 120 if tier == "quick" else 2000)
 
 
 def replay(rp, out): run_stream(out, rp.get("stream", "replay"), [rp["input"]])
